@@ -575,6 +575,12 @@ func checkUnknown(rep *Reporter, t gen.Tier, r *gen.Rng, spec, mode *impl.Tree, 
 	if !isBer {
 		onPu = skipPu
 	}
+	if isBer && pu == "-" && r.Intn(2) == 0 {
+		// BER tags with an explicit, non-BER length coding for unknown elements
+		// (Tag.PrefUnknownTLV takes precedence over the BER default)
+		skipPu = gen.Pick(r, []string{"ascii.2", "bcd.2", "binary.1", "binary.2", "ascii.3"})
+		onPu = skipPu
+	}
 	specOn := specWith(spec, "1", onPu)
 	specOff := specWith(spec, "0", pu)
 	// skipUnknown set but neither BER tags nor PrefUnknownTLV: skipping is NOT in force
@@ -1033,12 +1039,53 @@ func linesC09(lines []string, rep *Reporter) {
 		}
 		g := gen.NewFieldGen(gen.NewRng(seed))
 		if tk[2] == "pack" {
-			if v, ok := impl.ParseTree(tk[3]); ok && (v.Name == "c" || v.Name == "c()") && spec.String() == tk[1] {
-				checkPack(rep, spec, mode, v)
+			if v, ok := impl.ParseTree(tk[3]); ok && (v.Name == "c" || v.Name == "c()") {
+				if spec.String() == tk[1] {
+					checkPack(rep, spec, mode, v)
+					checkPackThenUnpack(rep, spec, v)
+				} else if whole, ok := impl.ParseTree(tk[1]); ok {
+					// the tagged composite sits below: examine it with the value the line gives it
+					if ns, nm, nv := nestedTagged(whole, v); ns != nil {
+						checkPack(rep, ns, nm, nv)
+						checkPackThenUnpack(rep, ns, nv)
+					}
+				}
 			}
 		}
 		examineSpec(rep, gen.Tier{}, g, spec, mode, 5)
 	}
+}
+
+// checkPackThenUnpack: what Pack emits for a tagged composite is consumed completely by Unpack
+// (whatever follows) and holds the same subfields (compared through their re-packed bytes).
+func checkPackThenUnpack(rep *Reporter, spec, v *impl.Tree) {
+	line := fmt.Sprintf("F %s pack %s", spec.String(), v.String())
+	safely(rep, line, func() {
+		f, ok := impl.FieldOfTree(spec)
+		if !ok || !setVal(f, v) {
+			return
+		}
+		data, err := f.Pack()
+		if err != nil {
+			return
+		}
+		rep.Case(line + " #unpack")
+		f2, _ := impl.FieldOfTree(spec)
+		n, uerr := f2.Unpack(append(append([]byte{}, data...), 0x31, 0x32, 0x33))
+		if uerr != nil {
+			rep.Viol("Unpack rejects the tagged composite Pack produced", line, uerr.Error())
+			return
+		}
+		if n != len(data) {
+			rep.Viol("Unpack of a packed tagged composite does not consume exactly the announced composite", line,
+				fmt.Sprintf("consumed %d of %d bytes", n, len(data)))
+			return
+		}
+		if again, err := f2.Pack(); err != nil || !bytes.Equal(again, data) {
+			rep.Viol("a tagged composite unpacked from its own packed form holds other subfield values", line,
+				fmt.Sprintf("packed %x, unpacked and packed again %x (err %v)", data, again, err))
+		}
+	})
 }
 
 func findTagged(t *impl.Tree) (*impl.Tree, *impl.Tree) {
